@@ -131,8 +131,18 @@ def _instances(q, pool, cap):
     return results
 
 
+import time as _time
+
+
+def _late(stats):
+    return _time.time() > stats.get('deadline', 1e18)
+
+
 def _expand(f, pool, cap, stats):
     """replace positive universals in an NNF formula by the conjunction of their instances."""
+    if _late(stats):
+        stats['budget_exhausted'] = True
+        return z3.BoolVal(True) if z3.is_quantifier(f) or _contains_quantifier(f) else f
     if z3.is_quantifier(f):
         if not f.is_forall():
             return f      # should not occur after nnf/skolemisation
@@ -179,7 +189,7 @@ def _nnf(formulas):
     return out
 
 
-def ground(formulas, rounds=3, cap=3000):
+def ground(formulas, rounds=3, cap=600, budget_s=8.0):
     """formulas: list of z3 Bool (to be conjoined). Returns (qf_formulas, stats)."""
     cur = _nnf(formulas)
     stats = {'instances': 0, 'rounds': 0}
@@ -187,7 +197,13 @@ def ground(formulas, rounds=3, cap=3000):
     plain = [f for f in cur if not _contains_quantifier(f)]
     insts = []
     last = -1
+    import time as _t
+    t0 = _t.time()
+    stats['deadline'] = t0 + budget_s
     for r in range(rounds):
+        if r > 0 and _t.time() - t0 > budget_s:
+            stats['budget_exhausted'] = True
+            break
         stats['rounds'] = r + 1
         stats['instances'] = 0
         pool = {}
@@ -198,10 +214,14 @@ def ground(formulas, rounds=3, cap=3000):
         if stats['instances'] == last:
             break
         last = stats['instances']
+    stats.pop('deadline', None)
     return plain + insts, stats
 
 
 def _expand_deep(f, pool, cap, stats):
+    if _late(stats):
+        stats['budget_exhausted'] = True
+        return z3.BoolVal(True) if _contains_quantifier(f) else f
     if z3.is_quantifier(f):
         e = _expand(f, pool, cap, stats)
         if z3.is_quantifier(e):
